@@ -97,6 +97,12 @@ CHECKS = {
         text='For every (curve, query point) of the grid the real radialrange / closest_point_in_path / farthest_point_in_path answer must have t in [0,1], d equal to the distance at the returned parameter (1e-9*size) and no sampled-and-refined point of the curve closer than dmin or farther than dmax (1e-6*size); for paths the returned segment index must attain the extreme.',
         note='Trusted: point(); the dense + refined reference (4097 samples, local golden-section).',
         design='4/C13'),
+    'C14': dict(
+        level='exploration',
+        technique='exhaustive enumeration of all closed polygons with 3..k vertices on a 3x3 lattice x two embeddings (plus curved closed paths and ellipses), each with area + transforms, a grid of enclosure probes and containment pairs, against exact rational shoelace / integral / crossing-parity oracles',
+        text='Every closed lattice polygon up to 4 (quick) / 5 (thorough) vertices - convex, concave, self-intersecting, degenerate - is built; area() is compared with the exact shoelace value and its reversed/translated/scaled variants with the exact transformation law; path_encloses_pt is compared with exact even-odd parity of the same probe for every probe certified (exactly, with a 1e-9 margin) to be in general position; is_contained_by with exact proper-crossing + enclosure.',
+        note='Trusted: Fraction arithmetic. Polygons with a retraced edge and probes within 1e-9 of a vertex/edge are filtered (counted in the evidence): a closed-interval test cannot decide them under rounding.',
+        design='4/C14'),
 }
 
 NOT_YET = {}
